@@ -71,6 +71,8 @@ class Collector:
                 self.walk(a, e.cond[:k], e.node)
             self.walk(e.value, e.cond, e.node)
         for e in s.effects:
+            for k, (a, p) in enumerate(e.cond):
+                self.walk(a, e.cond[:k], e.node)
             self.walk(e.target, e.cond, e.node)
             if isinstance(e.key, tuple):
                 self.walk(e.key, e.cond, e.node)
@@ -79,6 +81,8 @@ class Collector:
                     if isinstance(v, tuple) and v and isinstance(v[0], str):
                         self.walk(v, e.cond, e.node)
         for c in s.calls:
+            for k, (a, p) in enumerate(c.cond):
+                self.walk(a, c.cond[:k], c.node)
             for a in list(c.args) + [v for _, v in c.kwargs]:
                 self.walk(a, c.cond, c.node)
         for l in s.loops.values():
